@@ -341,16 +341,18 @@ impl StructureChecker {
         let mut violations = Vec::new();
 
         for (parent, dir_files) in files_by_parent {
-            // Find rules that apply to this directory (scopes are project-relative)
-            let parent = &normalize_for_matching(parent);
+            // Find rules that apply to this directory. Scopes are project-relative, so they are
+            // matched without the leading `./`; `parent` itself keeps the walked spelling, which
+            // is what the expected sibling paths are looked up under.
+            let scope_path = normalize_for_matching(parent);
             let applicable_rules: Vec<_> = self
                 .sibling_rules
                 .iter()
                 .filter(|rule| match rule {
-                    CompiledSiblingRule::Directed { dir_matcher, .. } => {
-                        dir_matcher.is_match(parent)
+                    CompiledSiblingRule::Directed { dir_matcher, .. }
+                    | CompiledSiblingRule::Group { dir_matcher, .. } => {
+                        dir_matcher.is_match(&scope_path)
                     }
-                    CompiledSiblingRule::Group { dir_matcher, .. } => dir_matcher.is_match(parent),
                 })
                 .collect();
 
